@@ -124,7 +124,7 @@ SHUTTLE_RULES = {
     ],
 }
 
-LOOM_FILES = ["channel/queue.rs", "time/monotonic_time.rs"]
+LOOM_FILES = ["channel/queue.rs", "time/monotonic_time.rs", "executor/mt_executor/pool_manager.rs", "executor/mt_executor/injector.rs"]
 LOOM_FORBIDDEN = [r"use std::sync::atomic"]
 LOOM_RULES = {
     "channel.rs": [
@@ -135,6 +135,19 @@ LOOM_RULES = {
     ],
     "executor.rs": [
         (r"^mod task;", "pub(crate) mod task;"),
+        (r"^mod mt_executor;", "pub(crate) mod mt_executor;"),
+    ],
+    "executor/mt_executor.rs": [
+        (r"^mod injector;", "pub(crate) mod injector;"),
+        (r"^mod pool_manager;", "pub(crate) mod pool_manager;"),
+        (r"^type Stealer = ", "pub(crate) type Stealer = "),
+    ],
+    "executor/mt_executor/pool_manager.rs": [
+        (r"pub\(super\)", "pub(crate)"),
+    ],
+    "executor/mt_executor/injector.rs": [
+        # loom primitives have no const constructors
+        (r"pub\(crate\) const fn new\(\)", "pub(crate) fn new()"),
     ],
     "lib.rs": [
         (r"^mod loom_exports;", "extern crate self as nexosim;\npub(crate) mod loom_exports;\n#[path = \"%(HARNESS)s/mod.rs\"]\npub mod vxharness;"),
